@@ -195,4 +195,11 @@ Refusal == (pc = "idle" /\ runErr = "history-changed") => journal = snapJ /\ (wf
 NoSpuriousRefusal == (pc = "defer" /\ runErr = "history-changed") => Mismatch(r, stmts)
 \* in-memory progress never runs ahead of the database either
 MemNotAhead == pc \in {"exec", "wprog", "defer"} => r.applied <= Cardinality(Toks(f))
+\* C09 liveness ("resumes after any failure"): faults are finite, the operator keeps re-running the whole directory (n = 0) and
+\* the executor's own steps are not starved; then every file is eventually, and for good, completely applied.  Checked in
+\* cfg/Apply.live.cfg with NChoices = {0} and MaxRuns = MaxFaults + 1: a run either absorbs a fault or completes the directory.
+LiveSpec == Spec /\ WF_vars(Step) /\ WF_vars(RunStart(0))
+Resumes  == <>[](PendingF = {})
+\* the safety half of the same argument, usable on any configuration: a run that ended with an error consumed a fault
+RunEndsInFaultOrOk == (pc = "idle" /\ edits = 0 /\ runs > 0) => (runErr \in {"ok", "nopending"} \/ budget < MaxFaults)
 ====
